@@ -82,6 +82,9 @@ type upCase struct {
 	Variant string   `json:"variant"` // gen:<n> | empty | fixture:<dir>
 	Runs    []upRun  `json:"runs"`
 	Label   string   `json:"label"`
+	// RunLabels names the model position of every run ("ok" for a clean one); a failure is keyed by
+	// what happened before the failing run, not by what was still planned
+	RunLabels []string `json:"runlabels"`
 }
 
 type upFailure struct {
@@ -496,14 +499,18 @@ func upMetaOK(p string, s *upSnap) bool {
 }
 
 // upClassifyDB says whether the database file at p holds the full content of snapshot s.
-// lastev disambiguates a zero-length file for the empty database (see notes/C08.md).
-func upClassifyDB(p string, s *upSnap, lastev string) string {
+// A zero-length <id>.db of the v8 layout is ambiguous when the original database is empty: it is
+// "created, not yet copied" right after up78.dbcreated and the complete (empty) content after
+// up78.copied, until EnsureWALMode makes it a 4096-byte file; the last step of the run that wrote
+// it tells them apart (the tmp directory never survives the start of the next run).  In the v10
+// layout the source is that 4096-byte file, so a zero-length data.db is always an unfinished copy.
+func upClassifyDB(p string, s *upSnap, lastev string, v8layout bool) string {
 	fi, err := os.Stat(p)
 	if err != nil {
 		return "none"
 	}
-	if s.EmptyDB && fi.Size() == 0 {
-		if lastev == "up78.dbcreated" || lastev == "plan.copy.created" {
+	if s.EmptyDB && fi.Size() == 0 && v8layout {
+		if lastev == "up78.dbcreated" {
 			return "partial"
 		}
 		return "full"
@@ -550,10 +557,10 @@ func upObserve(raftDir string, snaps []upSnap, lastev string) upObs {
 						}
 					}
 				case "t8", "d8":
-					r.Data = upClassifyDB(filepath.Join(d, s.ID+".db"), s, lastev)
+					r.Data = upClassifyDB(filepath.Join(d, s.ID+".db"), s, lastev, true)
 				default:
 					dp := filepath.Join(sd, "data.db")
-					r.Data = upClassifyDB(dp, s, lastev)
+					r.Data = upClassifyDB(dp, s, lastev, false)
 					if upExists(dp + ".crc32") {
 						r.Crc = "stale"
 						if ok, err := sidecar.CompareFile(dp, dp+".crc32"); err == nil && ok {
@@ -809,8 +816,20 @@ func upOneCase(self, scratch, fixtures string, c *upCase) (lines []map[string]an
 		m["label"] = c.Label
 		lines = append(lines, m)
 	}
+	curRun := 0
 	fail := func(class, detail string) {
-		st.Failures = append(st.Failures, upFailure{Case: c.ID, Class: class, Label: c.Label, Detail: detail, Kind: c.Kind, Runs: c.Runs, Variant: c.Variant})
+		label := c.Label
+		if len(c.RunLabels) == len(c.Runs) {
+			before := append([]string{}, c.RunLabels[:curRun]...)
+			for len(before) > 0 && before[len(before)-1] == "ok" {
+				before = before[:len(before)-1]
+			}
+			label = "from=" + c.Kind + ":crash=none"
+			if len(before) > 0 {
+				label = "from=" + c.Kind + ":crash=" + strings.Join(before, "+")
+			}
+		}
+		st.Failures = append(st.Failures, upFailure{Case: c.ID, Class: class, Label: label, Detail: detail, Kind: c.Kind, Runs: c.Runs[:curRun+1], Variant: c.Variant})
 	}
 	add(map[string]any{"ev": "reset", "kind": c.Kind, "shape": c.Shape, "variant": c.Variant})
 	st.Cases = 1
@@ -831,6 +850,7 @@ func upOneCase(self, scratch, fixtures string, c *upCase) (lines []map[string]an
 	upRoutes.Store(raftDir, buf)
 	defer upRoutes.Delete(raftDir)
 	for ri, r := range c.Runs {
+		curRun = ri
 		var evs []map[string]any
 		var stderr bytes.Buffer
 		code, upgraded := 0, false
